@@ -477,6 +477,42 @@ def _search_loops(fn):
             i = 0
             while i < len(b):
                 loop = b[i]
+                if isinstance(loop, ast.For) and loop.orelse and not getattr(loop, '_n17', False):
+                    # N19  for .. else:  `for T in S: .. if C: break` / `else: E` is the search loop whose flag is tested
+                    # after it: __hit = False; for ..: if C: __hit = True; break;  if not __hit: E
+                    jumps = level_jumps(loop.body)
+                    if jumps and all(isinstance(j, ast.Break) for j in jumps):
+                        loop._n17 = True
+                        counter[0] += 1
+                        flag = '__hit%d' % counter[0]
+
+                        def mark(stmts):
+                            k = 0
+                            while k < len(stmts):
+                                st_ = stmts[k]
+                                if isinstance(st_, ast.Break):
+                                    stmts.insert(k, ast.copy_location(ast.Assign(targets=[ast.Name(id=flag, ctx=ast.Store())],
+                                                                                 value=ast.Constant(value=True)), st_))
+                                    k += 2
+                                    continue
+                                if not isinstance(st_, (ast.For, ast.While, ast.FunctionDef, ast.AsyncFunctionDef, ast.ClassDef)):
+                                    for fld in ('body', 'orelse', 'finalbody'):
+                                        sub = getattr(st_, fld, None)
+                                        if isinstance(sub, list):
+                                            mark(sub)
+                                    for h in getattr(st_, 'handlers', []) or []:
+                                        mark(h.body)
+                                k += 1
+                        mark(loop.body)
+                        init = ast.copy_location(ast.Assign(targets=[ast.Name(id=flag, ctx=ast.Store())], value=ast.Constant(value=False)), loop)
+                        after = ast.copy_location(ast.If(test=ast.UnaryOp(op=ast.Not(), operand=ast.Name(id=flag, ctx=ast.Load())),
+                                                         body=loop.orelse, orelse=[]), loop)
+                        loop.orelse = []
+                        b[i:i + 1] = [init, loop, after]
+                        for x in b[i:i + 3]:
+                            ast.fix_missing_locations(x)
+                        i += 3
+                        continue
                 if isinstance(loop, ast.For) and not loop.orelse and not getattr(loop, '_n17', False):
                     loop._n17 = True
                     jumps = level_jumps(loop.body)
@@ -546,9 +582,10 @@ def expression_of(fn: ast.FunctionDef):
         return None
     e = body[0].value
     for n in ast.walk(e):
-        if isinstance(n, (ast.Yield, ast.YieldFrom, ast.Await, ast.Lambda, ast.NamedExpr, ast.ListComp, ast.SetComp, ast.DictComp,
-                          ast.GeneratorExp, ast.IfExp, ast.BoolOp)):
+        if isinstance(n, (ast.Yield, ast.YieldFrom, ast.Await, ast.Lambda, ast.NamedExpr, ast.ListComp, ast.SetComp, ast.DictComp)):
             return None
+        if isinstance(n, ast.GeneratorExp) and n is not e:
+            return None             # a generator expression only as the whole result (a lazily paired-up view)
         if isinstance(n, ast.Call) and not (isinstance(n.func, ast.Name) and n.func.id in _SIMPLE_PURE):
             return None
     if any(d is not None and not isinstance(d, ast.Constant) for d in a.defaults):
@@ -611,10 +648,42 @@ def inline_expression_helpers(fn: ast.FunctionDef, resolver) -> ast.FunctionDef:
     return fn2
 
 
+def _flatten_forever_loops(fn):
+    """N20   while True: [while C: B] ; TAIL      (no `break` out of the inner loop, none in TAIL, no else)
+    is      while True: if C: B else: TAIL
+    - after TAIL the outer loop comes back to the test of C, exactly as after B.  One form for the server loop written
+    with a nested `while backlog:` and written flat with `if not backlog: <wait>; continue`."""
+    def own_breaks(stmts):
+        out = []
+        for st_ in stmts:
+            if isinstance(st_, ast.Break):
+                out.append(st_)
+            elif isinstance(st_, (ast.For, ast.While, ast.FunctionDef, ast.AsyncFunctionDef, ast.ClassDef)):
+                continue
+            else:
+                for fld in ('body', 'orelse', 'finalbody'):
+                    out.extend(own_breaks(getattr(st_, fld, []) or []))
+                for h in getattr(st_, 'handlers', []) or []:
+                    out.extend(own_breaks(h.body))
+        return out
+    for node in ast.walk(fn):
+        if isinstance(node, ast.While) and isinstance(node.test, ast.Constant) and node.test.value is True and not node.orelse \
+                and node.body and isinstance(node.body[0], ast.While) and not node.body[0].orelse:
+            inner, tail_ = node.body[0], node.body[1:]
+            if isinstance(inner.test, ast.Constant) or own_breaks(inner.body) or own_breaks(tail_):
+                continue
+            if any(isinstance(n, (ast.Return,)) for st_ in tail_ for n in ast.walk(st_)):
+                continue
+            new_if = ast.copy_location(ast.If(test=inner.test, body=inner.body, orelse=tail_ or [ast.copy_location(ast.Pass(), inner)]), inner)
+            node.body = [new_if]
+            ast.fix_missing_locations(node)
+
+
 def normalized(fn: ast.FunctionDef) -> ast.FunctionDef:
     k = id(fn)
     if k not in _CACHE:
         fn2 = copy.deepcopy(fn)
+        _flatten_forever_loops(fn2)
         _inline_guard_temps(fn2)
         _terminal_loop_returns(fn2)
         _Norm(fn2).visit(fn2)
